@@ -27,6 +27,8 @@ for d in sorted(glob.glob(f"{ROOT}/seeded/*/")):
         json.dump(meta, open(d + "meta.json", "w"), indent=1)
         rows.append((sid, meta))
         continue
+    # does the change still break the property on the current tree? (later repairs can neutralise a seeded change)
+    demo = subprocess.run(f"cd /tmp && PYTHONPATH=/repo/pdks/Sky130:/repo/pdks/Gf180:/repo/pdks/Asap7 timeout 600 /venv/bin/python -W ignore {d}demo.py", shell=True, capture_output=True, text=True)
     res = {}
     for c in checks:
         out = subprocess.run(f"cd {ROOT} && ./run {c} --tier quick", shell=True, capture_output=True, text=True).stdout
@@ -34,10 +36,13 @@ for d in sorted(glob.glob(f"{ROOT}/seeded/*/")):
         last = [l for l in out.splitlines() if l.startswith("[")][-1:] or [""]
         res[c] = dict(detected=bool(viol), violations_reported=len(viol), first=(viol[0].split("#")[-1].strip() if viol else ""), summary=last[0])
     subprocess.run("git -C /repo reset -q --hard HEAD", shell=True)
-    meta["verif"] = dict(checks=checks, applies=True, results=res, caught_by=[c for c, v in res.items() if v["detected"]])
+    meta["verif"] = dict(checks=checks, applies=True, results=res, caught_by=[c for c, v in res.items() if v["detected"]], demo_exit_with_patch=demo.returncode,
+                         demo_tail=(demo.stdout + demo.stderr).strip().splitlines()[-1][:200] if (demo.stdout + demo.stderr).strip() else "")
+    if meta.get("verif_note"):
+        meta["verif"]["note"] = meta["verif_note"]
     json.dump(meta, open(d + "meta.json", "w"), indent=1)
     rows.append((sid, meta))
-    print(sid, meta["verif"]["caught_by"] or "MISSED", flush=True)
+    print(sid, meta["verif"]["caught_by"] or ("ineffective on the current tree (its demo passes with the patch applied)" if demo.returncode == 0 else "MISSED"), flush=True)
 
 with open(f"{ROOT}/seeded/RESULTS.md", "w") as f:
     f.write("# Seeded property-breaking changes and which checks report them\n\n")
@@ -45,6 +50,8 @@ with open(f"{ROOT}/seeded/RESULTS.md", "w") as f:
     f.write("| id | property | what | needs | caught by |\n|---|---|---|---|---|\n")
     for sid, meta in rows:
         v = meta.get("verif", {})
-        cb = ", ".join(v.get("caught_by", [])) or ("patch no longer applies" if v.get("applies") is False else "**not caught**")
+        cb = ", ".join(v.get("caught_by", [])) or ("patch no longer applies" if v.get("applies") is False else
+                                                    "no longer breaks the property on the current tree (demo passes with the patch applied)" if v.get("demo_exit_with_patch") == 0 else
+                                                    ("**not caught** - " + v["note"]) if v.get("note") else "**not caught**")
         f.write(f"| {sid} | {meta.get('property','')} | {meta.get('what','')[:220].replace('|','/')} | {meta.get('needs','')[:160].replace('|','/')} | {cb} |\n")
 print("written seeded/RESULTS.md")
